@@ -453,6 +453,13 @@ def check_C12(ctx):
     part = {}
     ctx.coverage["parts"]["reentrancy-watchdog"] = part
     dyn = _lockh(ctx, part)
+    # the gated filter wired to the same Broker whose pipeline contains it, flushing plain / Gateable / Gateable-flush composites
+    # on expiry, FlushAll and RemovePipelineAndNodes, each call under a watchdog (driver gatedh -reentry)
+    try:
+        import eng_gated
+        eng_gated.gateable_composite_reentry_part(ctx)
+    except Exception as e:  # the gated engine is optional for this check
+        part["gated_reentry_part_error"] = repr(e)
     timeouts, outside = [], []
     if dyn:
         summ, results = dyn
